@@ -49,6 +49,9 @@ func genC20(g *Gen, tier string, idx int) *wire.Scenario {
 	sc := &wire.Scenario{Prop: "C20", Family: "disturb"}
 	env := wire.Env{Mode: mode, Prompt: Pick(g, []string{"> ", "$ ", "prompt> "}), W: Pick(g, []int{20, 40, 80, 120}), H: g.Range(8, 40)}
 	env.StartRow = g.N(env.H / 2)
+	if idx%5 == 3 {
+		env.Prompt = Pick(g, []string{"two\nlines> ", "status: ok\n$ ", "a\nb\nc> "})
+	}
 	if g.P(40) {
 		env.History = []wire.HistSrc{{Kind: "memory", Name: "h0", Entries: []string{"one", "two words", "three"}}}
 		env.NoDefaultHistory = true
@@ -143,6 +146,9 @@ func genC20(g *Gen, tier string, idx int) *wire.Scenario {
 		}
 		if (d.Kind == "sigwinch" || d.Kind == "resize") && g.P(30) {
 			d.Burst = g.Range(2, 5)
+		}
+		if (d.Kind == "printf" || d.Kind == "printtransientf") && idx%3 == 1 {
+			d.Msg = Pick(g, []string{"\nrow two", "\n2\n3", " and a tail that is long enough to go past the right margin of a narrow terminal", "\n"})
 		}
 		plan.Disturb = append(plan.Disturb, d)
 	}
@@ -337,6 +343,45 @@ func execC20(x *Ctx, sc *wire.Scenario) *wire.Result {
 					res.Counters["frames_judged"]++
 				}
 			}
+		}
+	}
+	// (5) what the application printed, and the prompt under it, stand intact above the input area at the
+	// first redisplay after it that a key has caused (one message only: a second one leaves a copy of the
+	// input area between them, which nothing specifies)
+	if out.Extra["resized"] != true && fired >= len(sc.Plan.Disturb) {
+		var pd *wire.Disturb
+		np := 0
+		for i := range sc.Plan.Disturb {
+			if d := &sc.Plan.Disturb[i]; d.Kind == "printf" || d.Kind == "printtransientf" {
+				pd = d
+				np++
+			}
+		}
+		maxTok := 0
+		for _, k := range out.DisturbTok {
+			if k > maxTok {
+				maxTok = k
+			}
+		}
+		var lastW *sim.Snap
+		for i := range out.Waits {
+			w := &out.Waits[i]
+			if w.Kind == "main" && !w.Dirty && w.Partial == 0 && w.Tokens > maxTok && w.Call <= 1 {
+				lastW = w
+			}
+		}
+		if np == 1 && lastW != nil && !out.Stuck {
+			head := "async message 0"
+			if pd.Kind == "printtransientf" {
+				head = "transient message 0"
+			}
+			lines := strings.Split(head+pd.Msg, "\n")
+			lines = append(lines, promptUpper(sc.Env.Prompt)...)
+			if sig, msg := judgeAbove(lastW, lines); sig != "" {
+				return violation(res, "LAYOUT", "C20.printed-message-and-prompt-intact", name("screen:above-the-input-area"),
+					fmt.Sprintf("disturbances %v: at the input wait after %d keys: %s", firedList, lastW.Tokens, msg))
+			}
+			res.Counters["frames_judged_above"]++
 		}
 	}
 	if sc.Index%400 == 0 {
